@@ -18,7 +18,7 @@ PROP = {
 }
 
 MANIFEST = {
-    "text": "Theorem (Coq, all strings and all value trees, no size bound): the exporter model's output is accepted by an RFC 8259 decoder and decodes to the same structure and text, for any escape table satisfying a decidable predicate; the table is regenerated on every run by sweeping the real jsonExporter.String over all 1,112,064 Unicode scalar values, and the traversal model is compared byte-for-byte with export.JSON() on generated value trees in every list/map representation, with encoding/json as a second decoder.",
+    "text": "Theorem (Coq, all strings and all value trees incl. style/link wrapper stacks (export.Format, export.Link) of any depth and order around any sub-value, no size bound): the exporter model's output is accepted by an RFC 8259 decoder and decodes to the same structure and text, for any escape table satisfying a decidable predicate; the table is regenerated on every run by sweeping the real jsonExporter.String over all 1,112,064 Unicode scalar values, and the traversal model is compared byte-for-byte with export.JSON() on generated value trees in every list/map representation, with encoding/json as a second decoder; Format/Link wrappers are proved transparent (json_wrappers_transparent: export (wrap ws v) = export v, and the same at every level of the tree) and are generated in the run as stacks of depth 0-4 in every order around scalars, lists, maps, list elements and map values.",
     "design_ref": "DESIGN.md section 6 C17",
     "note": "Trusted: Coq kernel + VM, the table sweep (translator), the Go harness; the traversal model is hand-written and tied by correspondence only; context-freeness of the escaper is checked, not proved.",
     "technique": "Coq proof over a regenerated escape table + vm_compute correspondence run",
